@@ -58,10 +58,10 @@ Section Pos.
   Proof. apply R_append. Qed.
 
   Lemma R_append_be16 b1 b2 v : R b1 b2 -> R (wb_append_be16 b1 v) (wb_append_be16 b2 v).
-  Proof. intros H. unfold wb_append_be16. apply R_append_byte, R_append_byte, H. Qed.
+  Proof. intros H. unfold wb_append_be16. apply R_append, H. Qed.
 
   Lemma R_append_be32 b1 b2 v : R b1 b2 -> R (wb_append_be32 b1 v) (wb_append_be32 b2 v).
-  Proof. intros H. unfold wb_append_be32. apply R_append_byte, R_append_byte, R_append_byte, R_append_byte, H. Qed.
+  Proof. intros H. unfold wb_append_be32. apply R_append, H. Qed.
 
   Lemma skipn_app_le {A} n (a b : list A) : (n <= length a)%nat -> skipn n (a ++ b) = skipn n a ++ b.
   Proof. intros H. rewrite skipn_app. replace (n - length a)%nat with 0%nat by lia. reflexivity. Qed.
@@ -285,10 +285,10 @@ Section Pos.
   Proof. unfold wb_len, wb_append. destruct bs; cbn [w_n length]; lia. Qed.
 
   Lemma wb_len_be16 b v : wb_len (wb_append_be16 b v) = wb_len b + 2.
-  Proof. unfold wb_append_be16, wb_append_byte. rewrite !wb_len_append. cbn [length]. lia. Qed.
+  Proof. unfold wb_append_be16. rewrite wb_len_append. cbn [length]. lia. Qed.
 
   Lemma wb_len_be32 b v : wb_len (wb_append_be32 b v) = wb_len b + 4.
-  Proof. unfold wb_append_be32, wb_append_byte. rewrite !wb_len_append. cbn [length]. lia. Qed.
+  Proof. unfold wb_append_be32. rewrite wb_len_append. cbn [length]. lia. Qed.
 
   Lemma R_write_one_rr b1 b2 base nl r rcode ttl_dec :
     R b1 b2 -> Rp (write_one_rr wfixed (base + k) b1 nl r rcode ttl_dec) (write_one_rr wfixed base b2 nl r rcode ttl_dec).
@@ -382,7 +382,7 @@ Section Pos.
 
   Lemma R0_append_be16 b1 b2 v : R0 b1 b2 -> R (wb_append_be16 b1 v) (wb_append_be16 b2 v).
   Proof.
-    intros (H1 & H2 & H3 & H6). unfold wb_append_be16, wb_append_byte, wb_append. cbn [w_rev w_n w_shadow w_fresh rev_append length].
+    intros (H1 & H2 & H3 & H6). unfold wb_append_be16, wb_append. cbn [w_rev w_n w_shadow w_fresh rev_append length].
     repeat split; cbn [w_rev w_n w_shadow w_fresh].
     - rewrite H1. reflexivity.
     - lia.
